@@ -25,6 +25,43 @@ pub fn bit_boundary() -> BoxedStrategy<u64> {
     (1u32..=50, 0u64..3).prop_map(move |(k, d)| ((1u64 << k) - 1 + d).min(m)).boxed()
 }
 
+/// decimal-structured values: d*10^k, 10^k +- 1, m*10^k (what a hand-written decimal formatter or
+/// digit-chunking parser is sensitive to), capped at MAX
+pub fn decimal_structured() -> BoxedStrategy<u64> {
+    let m = max_int();
+    prop_oneof![
+        (1u64..=9, 0u32..=14, 0u64..3).prop_map(move |(d, k, delta)| (d * 10u64.pow(k)).saturating_add(delta).saturating_sub(1).min(m)),
+        (1u64..1000, 0u32..=12).prop_map(move |(mm, k)| mm.saturating_mul(10u64.pow(k)).min(m)),
+    ]
+    .boxed()
+}
+
+pub fn decimal_values() -> Vec<u64> {
+    let m = max_int();
+    let mut v = vec![];
+    for k in 0u32..=14 {
+        for d in 1u64..=9 {
+            let x = d * 10u64.pow(k);
+            for y in [x.saturating_sub(1), x, x + 1] {
+                if y <= m {
+                    v.push(y);
+                }
+            }
+        }
+    }
+    for mm in [12u64, 25, 99, 101, 123, 250, 999] {
+        for k in [3u32, 6, 9, 12] {
+            let x = mm.saturating_mul(10u64.pow(k));
+            if x <= m {
+                v.push(x);
+            }
+        }
+    }
+    v.sort();
+    v.dedup();
+    v
+}
+
 pub fn field() -> BoxedStrategy<u64> {
     let m = max_int();
     prop_oneof![
@@ -34,6 +71,7 @@ pub fn field() -> BoxedStrategy<u64> {
         1 => 0..1000u64,
         2 => log_uniform(),
         1 => bit_boundary(),
+        1 => decimal_structured(),
     ]
     .boxed()
 }
@@ -94,6 +132,8 @@ pub fn small_mversion() -> BoxedStrategy<MVersion> {
 
 #[derive(Clone, Debug, Serialize, Deserialize)]
 pub enum Mutation {
+    /// same characters, dots elsewhere: re-split the concatenated prerelease text (`rc1.0` -> `rc.10`)
+    Resplit(u8),
     /// the semver release bumps: next major / minor / patch release
     NextMajor,
     NextMinor,
@@ -115,6 +155,7 @@ pub enum Mutation {
 
 pub fn mutation() -> BoxedStrategy<Mutation> {
     prop_oneof![
+        2 => (0u8..16).prop_map(Mutation::Resplit),
         1 => Just(Mutation::NextMajor),
         1 => Just(Mutation::NextMinor),
         1 => Just(Mutation::NextPatch),
@@ -139,6 +180,33 @@ pub fn apply(v: &MVersion, m: &Mutation) -> MVersion {
     let mut v = v.clone();
     let mx = max_int();
     match m {
+        Mutation::Resplit(k) => {
+            if v.pre.len() >= 2 {
+                // move one dot by one character, keeping the number of identifiers
+                let texts: Vec<String> = v.pre.iter().map(|i| i.text()).collect();
+                let i = (*k as usize) % (texts.len() - 1);
+                let (a, b) = (texts[i].clone(), texts[i + 1].clone());
+                let (na, nb) = if k % 2 == 0 && a.len() > 1 {
+                    (a[..a.len() - 1].to_string(), format!("{}{}", &a[a.len() - 1..], b))
+                } else if b.len() > 1 {
+                    (format!("{}{}", a, &b[..1]), b[1..].to_string())
+                } else {
+                    (a, b)
+                };
+                let canon = |t: &str| {
+                    // keep identifiers canonical (no leading zeros on numerics)
+                    if t.len() > 1 && t.starts_with('0') && t.bytes().all(|c| c.is_ascii_digit()) {
+                        None
+                    } else {
+                        Some(MId::from_text(t))
+                    }
+                };
+                if let (Some(x), Some(y)) = (canon(&na), canon(&nb)) {
+                    v.pre[i] = x;
+                    v.pre[i + 1] = y;
+                }
+            }
+        }
         Mutation::NextMajor => {
             v.major = (v.major + 1).min(mx);
             v.minor = 0;
